@@ -1,6 +1,10 @@
 package rules
 
-import "kyverif/internal/efx"
+import (
+	"strings"
+
+	"kyverif/internal/efx"
+)
 
 // Registration of the properties. Each Run composes rule families; the
 // per-family instance tables live next to the family.
@@ -75,11 +79,36 @@ func both(fs ...func(c *Ctx)) func(c *Ctx) {
 	}
 }
 
+func loopShare(pk ...string) func(c *Ctx) { return func(c *Ctx) { LoopShare(c, "default", pk) } }
+
 func init() {
 	stale := func(pk ...string) func(c *Ctx) { return func(c *Ctx) { StaleResults(c, "default", pk) } }
-	extraRules["C15"] = stale("shuffle", "proof")
-	extraRules["C14"] = stale("proof")
-	extraRules["C13"] = stale("share/pvss", "proof/dleq")
+	extraRules["C15"] = both(stale("shuffle", "proof"), loopShare("shuffle"))
+	roTargetsFor := func(names ...string) func(c *Ctx) {
+		return func(c *Ctx) {
+			p := c.Prog("default")
+			if p == nil {
+				return
+			}
+			an := efx.NewAnalyzer(p)
+			for _, t := range roTargetList(c, p) {
+				for _, n := range names {
+					if strings.Contains(t.Func, n) {
+						if fn := p.Fn(t.Func); fn != nil && len(fn.Blocks) > 0 {
+							allow := map[int]bool{}
+							for _, i := range t.Allow {
+								allow[i] = true
+							}
+							roCheckP(c, p, an, fn, "EFX-RO", allow, t.AllowPaths)
+						}
+					}
+				}
+			}
+		}
+	}
+	extraRules["C14"] = both(stale("proof"), loopShare("proof"))
+	extraRules["C13"] = both(stale("share/pvss", "proof/dleq"), roTargetsFor("share/pvss.", "proof/dleq."), loopShare("share/pvss", "proof/dleq"))
+	extraRules["C06"] = roTargetsFor(").Pair", ").ValidatePairing")
 	extraRules["C08"] = both(stale("sign/schnorr", "sign/eddsa", "sign/anon"), entropyRule("C08"))
 	extraRules["C02"] = entropyRule("C02")
 	extraRules["C17"] = entropyRule("C17")
